@@ -1,6 +1,7 @@
 package harness
 
 import (
+	"bytes"
 	"bufio"
 	"io"
 	"math/rand"
@@ -26,7 +27,20 @@ func readPlan(r io.Reader, sizes []int, stop int64) ([]byte, error) {
 
 // readPlanCap: with exact set, never reads past stop octets (used on the BDAT
 // pipe, where how much one Read returns depends on the writer's pieces).
+// ioCopyBuf: a plan whose only read size is this one stands for "the backend uses io.Copy"
+const ioCopyBuf = 32 * 1024
+
 func readPlanCap(r io.Reader, sizes []int, stop int64, exact bool) ([]byte, error) {
+	if len(sizes) == 1 && sizes[0] == ioCopyBuf && stop < 0 && !exact {
+		// a backend that consumes the message with io.Copy (32 KiB reads - or whatever short cut the reader
+		// offers to io.Copy: io.WriterTo); the destination hides bytes.Buffer's ReadFrom
+		var b bytes.Buffer
+		_, err := io.Copy(struct{ io.Writer }{&b}, r)
+		if err == nil {
+			err = io.EOF // io.Copy ends without an error only at the end of the reader
+		}
+		return b.Bytes(), err
+	}
 	var got []byte
 	i := 0
 	for {
